@@ -172,6 +172,7 @@ def build_mhtml(seed, feature=None, twin=False):
     msg.make_related()
     im = _rand_image(rng, 1)
     msg.add_related(im["data"], maintype="image", subtype=im["ctype"].split("/")[1], cid="<img1@verif>")
+    msg.set_boundary(f"----=_verif_{seed}_boundary")     # the stdlib draws a random boundary otherwise: bytes must be a function of the seed
     from email import policy
     return msg.as_bytes(policy=policy.SMTP), exp
 
